@@ -18,9 +18,11 @@ equivalentPauli_spec equivalentPauli_set remapPauli_spec remapPauli_perm insertS
 insertSubscripts_slotFactors insertSubscripts_consistent splitInsertIndex_formula
 splitInsertIndex_bookkeeping'''.split()
 PINS = ['pinTensorInsert', 'pinTensorMerge', 'pinTensorTranspose']
-LEAN_MODULES = ['FFVerif.Props.C16', 'FFVerif.Props.C16Kron', 'FFVerif.Props.C16KronIns']
+LEAN_MODULES = ['FFVerif.Props.C16', 'FFVerif.Props.C16Kron', 'FFVerif.Props.C16KronIns', 'FFVerif.Props.C16KronLoop']
 THEOREMS = THEOREMS + ['FFVerif.C16Kron.' + t for t in '''mergeSigma_eq_mergeResult tensorMergeNum_isChain'
-tensorMergeNum_eq_chain insertSpec_single tensorInsertNum_single_isChain' tensorInsertNum_eq_chain_partial'''.split()]
+tensorMergeNum_eq_chain insertSpec_single tensorInsertNum_single_isChain' tensorInsertNum_eq_chain_partial
+singleInsertNum_bookkeeping tensorInsertNum_isChain' tensorInsertNum_eq_chain tensorInsertNum_eq_tensorMergeNum
+tensorInsertNumInt_isChain' isChain_flatten' '''.split()]
 # module C16Kron (model TensorNum: util.tensor / tensor_transpose / tensor_insert / tensor_merge on shape + buffer arrays):
 # the chain is the iterated Kronecker product, transposing the formed product = the product of the permuted factors
 THEOREMS = THEOREMS + [
